@@ -301,7 +301,7 @@ lazy_static! {
         ].into_iter()
     );
 
-    static ref TWO_CHAR_OPERATORS: HashSet<char> = HashSet::from_iter(vec!['<', '>', '!', '=', '-'].into_iter());
+    static ref TWO_CHAR_OPERATORS: HashSet<(char, char)> = HashSet::from_iter(vec![('<', '='), ('>', '='), ('!', '='), ('-', '-')].into_iter());
 }
 
 pub fn tokenize_simple(text: &str) -> Result<Vec<Token>, ParserError> {
@@ -349,7 +349,12 @@ pub fn tokenize(text: &str) -> Result<Vec<ParserToken>, ParserError> {
     let mut current_str: Option<String> = None;
     let mut is_escaped = false;
     let mut is_comment = false;
+    let mut previous_is_operator = false;
     while let Some(current) = state.next_char() {
+        // Two operator characters only form one operator when nothing (not even whitespace) is between them
+        let adjacent_to_operator = previous_is_operator;
+        previous_is_operator = false;
+
         if current == '\n' {
             state.line += 1;
             state.column = 0;
@@ -500,7 +505,7 @@ pub fn tokenize(text: &str) -> Result<Vec<ParserToken>, ParserError> {
                         state.tokens.last_mut().unwrap().token = Token::RightArrow;
                         is_dual = true;
                     },
-                    Token::Operator(Operator::Single(operator)) if TWO_CHAR_OPERATORS.contains(operator) => {
+                    Token::Operator(Operator::Single(operator)) if adjacent_to_operator && TWO_CHAR_OPERATORS.contains(&(*operator, current)) => {
                         state.tokens.last_mut().unwrap().token = Token::Operator(Operator::Dual(*operator, current));
                         is_dual = true;
                     }
@@ -510,6 +515,7 @@ pub fn tokenize(text: &str) -> Result<Vec<ParserToken>, ParserError> {
 
             if !is_dual {
                 state.add(Token::Operator(Operator::Single(current)));
+                previous_is_operator = true;
             }
         }
     }
